@@ -1,4 +1,6 @@
 import PugModel.Tpl.Compile
+import PugProofs.C13.Static
+import PugProofs.Props.C06
 /-!
 # C13 — debug (pretty-source) mode changes white space only
 
@@ -75,5 +77,48 @@ theorem C13_sep_effect (a b : String) :
       [.text (trimRightWs a), .act true true (.print (.lit (.str "")) false), .text (trimLeftWs b)] := by
   simp only [debugSep, List.cons_append, List.nil_append, mergeTexts, applyTrims, if_true]
   rw [C13_sep_left, C13_sep_right]
+
+/-! ## whole static documents, both modes, through the complete model pipeline -/
+
+open Pug.Props.C13S Pug.Props.C06S Pug.Driver in
+/-- **C13 (debug mode changes white space only, whole documents).** For EVERY static document (text with any characters, doctype,
+attribute-less tags, any nesting, block-level and inline in any mix) and any page data: the model of LoadTemplates + Render with
+`Engine.Debug = true` - the transpiler's separators, text merging, the trim markers, the template parser, the executor - succeeds,
+and what it prints equals the reference serialisation of the tree once all white space is removed from both. -/
+theorem C13_static_debug_render (doc : List Node) (data : Lean.Json) (h : staticListF nodeFuel doc = true) :
+    ∃ frags, compileNodes { funcs := engineFuncs ++ [], parserFuncs := engineFuncs ++ [] ++ builtinNames, debug := true } doc = .ok frags ∧
+      (frags.length + 2 < 100000000 →
+        ∃ w, renderModel doc data [] true = okOut w ∧ stripWs w = stripWs (serListF nodeFuel doc)) := by
+  obtain ⟨frags, h1, h2, h3, h4⟩ := compileDoc_static_debug
+    { funcs := engineFuncs ++ [], parserFuncs := engineFuncs ++ [] ++ builtinNames, debug := true } rfl doc h
+  refine ⟨frags, h1, fun hlen => ?_⟩
+  have hm := merge_db frags.length frags (Nat.le_refl _) h2
+  have hl := merge_length frags.length frags (Nat.le_refl _)
+  have ht := trims_db (mergeTexts frags).length (mergeTexts frags) (Nat.le_refl _) hm.1
+  have htl := trims_length (mergeTexts frags)
+  have hw := walk_db { defs := [] } (applyTrims (mergeTexts frags)) ht.1 (initState data) 100000000 (by omega)
+  have hout : (initState data).out = "" := by
+    unfold initState
+    split <;> rfl
+  refine ⟨dbStr (applyTrims (mergeTexts frags)), ?_, by rw [ht.2, hm.2, h3]⟩
+  simp only [renderModel, h4, StateT.run, hw, hout, String.empty_append]
+
+open Pug.Props.C13S Pug.Props.C06S Pug.Driver in
+/-- **C13 (the two modes against each other).** Same documents: production mode and debug mode both render, and the two outputs
+are identical once all white space is removed. -/
+theorem C13_static_modes_agree (doc : List Node) (data : Lean.Json) (h : staticListF nodeFuel doc = true)
+    (hsize : ∀ frags debug, compileNodes { funcs := engineFuncs ++ [], parserFuncs := engineFuncs ++ [] ++ builtinNames, debug := debug } doc = .ok frags →
+      frags.length + 2 < 100000000) :
+    ∃ p d, renderModel doc data [] false = okOut p ∧ renderModel doc data [] true = okOut d ∧ stripWs d = stripWs p := by
+  obtain ⟨fp, hp1, hp2⟩ := Pug.Props.C06.C06_static_render doc data h
+  obtain ⟨fd, hd1, hd2⟩ := C13_static_debug_render doc data h
+  obtain ⟨w, hw1, hw2⟩ := hd2 (hsize fd true hd1)
+  exact ⟨_, w, hp2 (hsize fp false hp1), hw1, hw2⟩
+
+/-! non-vacuity: a document with block-level and inline tags, text ending in white space, a void element -/
+open Pug.Props.C06S in
+example : staticListF 7 [.tag "div" false [] [] [.tag "p" false [] [] [.text "intro "], .tag "br" false [] [] [], .text "Voilà \n"], .text " end "]
+    = true := by decide
+example : Pug.Props.C13S.stripWs "<div> <p>a b</p>\n</div>" = "<div><p>ab</p></div>" := by decide
 
 end Pug.Props.C13
